@@ -148,7 +148,9 @@ func init() {
 		"Thorough": func(g *G, fr *frame, a []value) value { return gThorough },
 		"IsSym":    func(g *G, fr *frame, a []value) value { return g.ex.fixed == nil },
 		"Go": func(g *G, fr *frame, a []value) value {
-			g.ex.spawn(g, a[1], nil, false, "client@"+g.pos(instrPos(fr.caller.curInstr)))
+			ng := g.ex.spawn(g, a[1], nil, false, "client@"+g.pos(instrPos(fr.caller.curInstr)))
+			ng.client = g.ex.nclients
+			g.ex.nclients++
 			return nil
 		},
 		"Quiesce": func(g *G, fr *frame, a []value) value {
@@ -188,6 +190,7 @@ func init() {
 		},
 		"Yield": extGosched,
 		"Now": func(g *G, fr *frame, a []value) value {
+			g.visible(&pendOp{kind: "now", obj: "clock", enabled: alwaysEnabled})
 			g.ex.clock++
 			return g.ex.clock
 		},
